@@ -1,19 +1,51 @@
 ID = "C18"
 PROPERTY_FILE = "Properties/C18.v"
 DESIGN_REF = "DESIGN.md §5 C18"
-TECHNIQUE = "Coq proof (algebraic, uint32 wrap explicit) + differential correspondence of the extracted model against GenerateShards / client shard map"
+TECHNIQUE = ("Coq proof (algebraic for GenerateShards with the uint32 wrap explicit; invariant by induction over every history of "
+             "config changes / deletion completions / metadata updates for the cluster status; refinement argument for the "
+             "client map) + differential correspondence of the extracted model against GenerateShards, ApplyClusterChanges, the "
+             "status resource, computeNewAssignments and the client shard map")
 LEVEL_TEXT = ("Theorems in Coq: GenerateShards partitions [0,2^32) with consecutive ids for every base id and every "
               "shard count 1..65536 (bound sharp, 65537 refuted); on a partition every hash code routes to exactly one shard. "
-              "The model is tied to the Go code by running both on generated shard counts, hash codes and "
-              "assignment-update histories and comparing all outputs; the partition/unique-route predicates are "
-              "also evaluated directly on the implementation's outputs.")
-LEVEL_NOTE = ("Trusted: Coq kernel, extraction (ExtrOcamlBasic), the Go harness and its canonicalisation. "
-              "Modelled, not verified: xxh3 (hash codes are inputs), gRPC delivery of assignments. "
-              "Shard counts 0 and > 65536 are outside the proved domain (configuration is never validated; recorded in DESIGN.md §6 O-18).")
-TRUSTED = ["modelled not verified: xxh3 hash (codes are inputs of the model), gRPC transport of ShardAssignments"]
-ASSUMES = ["initialShardCount in 1..65536 for the partition theorem (sharp)"]
+              "Cluster status, for EVERY sequence of config changes (any namespaces / shard counts 1..65536 / server lists, any "
+              "ensemble supplier, failing or not), shard-deletion completions and controller metadata updates: shard ids are "
+              "unique over the whole status, below ShardIdGenerator, the generator never decreases and an id that disappeared never "
+              "comes back; a live id keeps its namespace and range; every stored namespace is published as nothing (being deleted) "
+              "or as a partition of the hash space. Client: after an update that is a partition the client's map is exactly that "
+              "partition (stale shards fall to the overlap rule), and along every history the client routes each hash code to the "
+              "one shard the published list - which servers forward unchanged - names. "
+              "Refuted and kept as known finding O-18(b): a namespace re-added while its old shards are still Deleting is published "
+              "with zero shards (c18_readded_namespace_refuted; c18_configured_namespaces_partitioned_partial states what holds). "
+              "O-18(a) (namespace stored with a hole when the ensemble selection fails) was confirmed and is fixed in the tree. "
+              "The model is tied to the Go code by running both on generated shard counts, hash codes, assignment-update "
+              "histories and config histories with a scripted, sometimes failing supplier (full status, shardsToAdd/Delete, supplier "
+              "call log and published assignments compared after every step); the spec predicates are also evaluated directly "
+              "on the implementation's outputs.")
+LEVEL_NOTE = ("Partial: proof about a hand-written model, tied to the code by differential testing. "
+              "Trusted: Coq kernel, extraction (ExtrOcamlBasic), the Go harness and its canonicalisation. "
+              "Modelled, not verified: xxh3 (hash codes are inputs), gRPC delivery of assignments, the real ensemble selector "
+              "(C19; here any function), the goroutine interleaving inside the coordinator (steps are the critical sections "
+              "under the coordinator / status-resource locks). ConfigChanged / NewCoordinator themselves are not driven (they need "
+              "node and shard controllers with live RPC); the harness composes the same calls they make: ApplyClusterChanges, "
+              "StatusResource.Update / DeleteShardMetadata / UpdateShardMetadata on the real resource, computeNewAssignments on a bare "
+              "coordinator. Outside the proved domain, configuration is never validated: shard count 0 and an empty server list "
+              "with a succeeding supplier make ApplyClusterChanges panic (division by zero, modelled as Panic, nothing stored); "
+              "counts > 65536 wrap the uint32 bounds; ShardIdGenerator wraps after 2^63 requested shards; duplicate namespace names "
+              "in one config hand shardsToAdd ids that the status does not hold. Modelled restriction: a shard controller's "
+              "UpdateShardMetadata is assumed not to hit a shard the status already marks Deleting (the real controller can do "
+              "that while an election is still running when its namespace is removed, which republishes the shard until its "
+              "deletion completes).")
+TRUSTED = ["modelled not verified: xxh3 hash (codes are inputs of the model), gRPC transport of ShardAssignments, "
+           "the ensemble selector (an arbitrary stateful function in the theorems)"]
+ASSUMES = ["initialShardCount in 1..65536 for every namespace of every configuration (sharp)",
+           "fewer than 2^63 shards requested over the whole history (int64 ShardIdGenerator)",
+           "DeleteShardMetadata only for shards marked Deleting; UpdateShardMetadata keeps the range and does not hit a Deleting shard"]
 RULE = ("gen: shard counts from {0..300, 2^k, 2^k±1, 65535..65537, random}; non-trivial = n>=2, distinct by n; "
-        "route: hash codes at/around range boundaries, distinct by (hash, map size); update: assignment histories, distinct by content")
+        "route: hash codes at/around range boundaries, distinct by (hash, map size); update: assignment histories from "
+        "GenerateShards, from the status histories, and from arbitrary cut points moved by ±1, distinct by content; "
+        "status: config histories (add/remove/re-add namespaces, server lists incl. empty, shard counts from the interesting "
+        "set incl. 0) with scripted supplier (fail / round-robin / explicit), deletion completions, metadata writes; "
+        "non-trivial = more than one step, distinct by content")
 LEGS = [
     {"name": "shard", "harness": "shard", "model": "shard", "n_quick": 120, "n_thorough": 6000,
      "corpus": "corpus/shard", "timeout": 600, "timeout_thorough": 3000},
